@@ -7,3 +7,7 @@ check("C13", "other",
       "Bounded symbolic verification over predicate/expression shapes: as_trivial, flatten_logical_and, Selection "
       "normalisation and columns_required sufficiency are decided by z3 for all integer rows and literals (unbounded) per shape; "
       "shapes enumerated to a stated nesting depth.", BSV, "3/C13")
+check("C12", "other",
+      "Three-way bounded symbolic verification per expression shape: real iteration callable (under symx), SMT semantics of the "
+      "real SQL translation, and an independent evaluator agree for all rows/literals in the value box; ranges enumerated over "
+      "a (start,stop,step) box with symbolic tested value; counterexamples replayed on SQLite.", BSV + " and the sqlmodel SQL semantics", "3/C12")
